@@ -28,6 +28,11 @@ type Facts struct {
 	Tables map[string][][2]any `json:"tables"` // (code, name) tables
 	Bools  map[string]bool     `json:"bools"`
 	Miss   []string            `json:"missing"` // anchors not found
+	// C03 panic-site inventory (panicsites.go): JSON only, steers oracle c03
+	PanicSites       []PanicSite    `json:"panicSites"`
+	PanicSiteCounts  map[string]int `json:"panicSiteCounts"`
+	PanicRootsMissed []string       `json:"panicRootsMissing,omitempty"`
+	PanicSitesError  string         `json:"panicSitesError,omitempty"`
 }
 
 var facts = Facts{Nat: map[string]int64{}, Bytes: map[string][]int64{}, Tables: map[string][][2]any{}, Bools: map[string]bool{}}
@@ -245,7 +250,7 @@ const mod = "github.com/insomniacslk/dhcp"
 
 func main() {
 	repo := "/repo"
-	outLean, outJSON := "", ""
+	outLean, outJSON, panicBaseline := "", "", ""
 	for i := 1; i < len(os.Args); i++ {
 		switch os.Args[i] {
 		case "-repo":
@@ -257,11 +262,22 @@ func main() {
 		case "-json":
 			i++
 			outJSON = os.Args[i]
+		case "-panicbaseline":
+			i++
+			panicBaseline = os.Args[i]
 		}
 	}
 	pkgs := load(repo, "./dhcpv4", "./dhcpv6", "./rfc1035label", "./iana", "./dhcpv4/nclient4", "./dhcpv6/nclient6", "./dhcpv4/server4", "./dhcpv6/server6")
 	extractV4(pkgs[mod+"/dhcpv4"])
 	extractMore(pkgs)
+	if outJSON != "" || panicBaseline != "" {
+		sites, counts, err := extractPanicSites(repo, panicBaseline)
+		if err != nil {
+			// the inventory only steers a search: its failure is recorded, not fatal
+			facts.PanicSitesError = err.Error()
+		}
+		facts.PanicSites, facts.PanicSiteCounts = sites, counts
+	}
 
 	js, _ := json.MarshalIndent(facts, "", " ")
 	if outJSON != "" {
